@@ -1,8 +1,8 @@
 (* C18 -- Resource identity: merge precedence, mandatory keys, bounded attribute store.
    Property theorems only; each is closed by [exact] of a lemma from AttrsProofs.v. *)
 From Deep Require Import Base Attrs AttrsProofs.
-From DeepGen Require Import PStore.
-From Deep Require Import PureSupport TieStore.
+From DeepGen Require Import PStore PMerge.
+From Deep Require Import PureSupport TieStore TieMerge.
 
 (* Every state reachable from any constructor call by ANY sequence of set/del/merge_in
    operations: never more than capacity, keys distinct, keys non-empty strings, every stored
@@ -140,3 +140,16 @@ Theorem C18_the_code_keeps_the_capacity :
   gen_setitem (Some (Z.of_nat c)) vl false it d k v = ((it', d'), o) -> (length it' <= c)%nat.
 Proof. exact code_setitem_capacity. Qed.
 Print Assumptions C18_the_code_keeps_the_capacity.
+
+(* ---- tie by translation: Resource.merge as it is in /repo/src NOW (gen/PMerge.v) is the model's merge, for every pair of
+   resources - so the precedence and "never modifies an operand" theorems above are statements about the code *)
+Theorem C18_the_code_merges_as_the_model : forall a b, code_merge a b = merge a b.
+Proof. exact tie_merge. Qed.
+Print Assumptions C18_the_code_merges_as_the_model.
+
+(* two different non-empty schemas: the receiver is handed back as it is (nothing is merged, nothing is modified) *)
+Theorem C18_the_code_keeps_the_receiver_on_incompatible_schemas :
+  forall a b, is_empty (r_schema a) = false -> is_empty (r_schema b) = false -> str_eqb (r_schema a) (r_schema b) = false ->
+  code_merge a b = a.
+Proof. exact code_merge_incompatible. Qed.
+Print Assumptions C18_the_code_keeps_the_receiver_on_incompatible_schemas.
